@@ -174,6 +174,16 @@ func (sc *c13Scenario) Run(s *simrt.Sim) {
 			ask = (&fpgo.AskDef[int, int]{}).New(r.msg) // method-style constructor on a zero value
 		case 1:
 			ask = proto.New(r.msg) // derived from a shared, fully constructed prototype
+		case 2:
+			// reply channel supplied by the asker: buffered for asks that may time out (a late reply on an
+			// unbuffered channel nobody reads any more is the asker's own doing), unbuffered otherwise
+			if r.spec.Via == "AskOnceWithTimeout" {
+				ask = fpgo.AskNewByOptionsGenerics[int, int](r.msg, make(chan int, 1+r.msg%2))
+			} else if r.msg%2 == 0 {
+				ask = fpgo.AskNewByOptionsGenerics[int, int](r.msg, make(chan int))
+			} else {
+				ask = (&fpgo.AskDef[int, int]{}).NewByOptions(r.msg, make(chan int))
+			}
 		}
 		switch r.spec.Via {
 		case "AskOnce":
